@@ -1146,6 +1146,54 @@ func vfC18OddVectors(res *vfResult, codecs map[string]*vfCodec) {
 	}
 }
 
+// vfC18ForeignClientHellos: harvested ClientHellos re-written the way another stack would send them - with a
+// compression-method list that names a method this library does not know in front of null. The decoder keeps what it
+// knows and must find every following field where the declared lengths put it: the hello is accepted and its
+// extensions are the original's.
+func vfC18ForeignClientHellos(res *vfResult, codecs map[string]*vfCodec, h *vfHarvest) {
+	c, ok := codecs["MessageClientHello"]
+	if !ok {
+		return
+	}
+	h.mu.Lock()
+	seeds := append([][]byte(nil), h.Seeds["MessageClientHello"]...)
+	h.mu.Unlock()
+	done := 0
+	for _, in := range seeds {
+		hello, okp := vfParseHello(in, true)
+		if !okp || !hello.HasExts || done >= 12 {
+			continue
+		}
+		orig, err := c.Dec(in)
+		if err != nil {
+			continue
+		}
+		for _, comp := range [][]byte{{1, 0}, {0x40, 1, 0}, {0, 1}} {
+			hello.Comp = comp
+			foreign := hello.Marshal()
+			res.Eval(1)
+			res.Count("foreign_client_hellos", 1)
+			res.NonTrivial("foreign-hello/" + vfShortHash(string(foreign)))
+			got, derr := c.Dec(foreign)
+			if derr != nil {
+				res.Violate("C18:MessageClientHello:foreign-compression-methods-rejected",
+					fmt.Sprintf("a well-formed ClientHello offering compression methods %v was rejected: %v (the same hello with <null> decodes)", comp, derr),
+					map[string]any{"codec": "MessageClientHello", "input": vfHex(foreign), "origin": "foreign-hello"})
+
+				continue
+			}
+			o, _ := orig.(*handshake.MessageClientHello)
+			g, _ := got.(*handshake.MessageClientHello)
+			if o != nil && g != nil && (len(o.Extensions) != len(g.Extensions) || !bytes.Equal(o.SessionID, g.SessionID) || len(o.CipherSuiteIDs) != len(g.CipherSuiteIDs)) {
+				res.Violate("C18:MessageClientHello:foreign-compression-methods-shift-fields",
+					fmt.Sprintf("with compression methods %v the hello decodes to %d extensions / %d suites, with <null> to %d / %d", comp, len(g.Extensions), len(g.CipherSuiteIDs), len(o.Extensions), len(o.CipherSuiteIDs)),
+					map[string]any{"codec": "MessageClientHello", "input": vfHex(foreign), "origin": "foreign-hello"})
+			}
+		}
+		done++
+	}
+}
+
 func TestVF_C18(t *testing.T) {
 	vfGetPKI()
 	res := vfNewResult("C18", "every codec (record headers legacy/CID/unified, records, inner plaintext, handshake header and every "+
@@ -1273,6 +1321,7 @@ func TestVF_C18(t *testing.T) {
 	vfC18HookedHello(t, res)
 	vfC18Values(res, codecs)
 	vfC18OddVectors(res, codecs)
+	vfC18ForeignClientHellos(res, codecs, h)
 	if res.Get("codecs_without_accepted_input") > 6 {
 		res.Inconc(fmt.Sprintf("%d codecs never accepted any input", res.Get("codecs_without_accepted_input")))
 	}
